@@ -136,11 +136,17 @@ Proof.
   assert (HA : exists st1, exec_list o no_funs body_gfw (bind_record (line_record (mkLine d u src (describe u m g))) st) = Some (FNormal, st1)
     /\ CompIn d (unit_string u) (describe u m g) st1 /\ SolIn su (map_put d (VQ 0) T) st1
     /\ flookup k_gfw (fld st1) = Some (VQ g)).
-  { apply stage_gfw with (src := src); auto.
+  { destruct HS as [H1 H2].
+    apply (stage_gfw (bind_record (line_record (mkLine d u src (describe u m g))) st) su T d (unit_string u) (describe u m g) src g).
     - repeat split; reflexivity.
-    - destruct HS as [H1 H2]. split; [|exact H2].
-      unfold bind_record, line_record, comp_record; cbn. exact H1.
-    - apply describe_pos; assumption. }
+    - split; [|exact H2]. unfold bind_record, line_record, comp_record; cbn. exact H1.
+    - reflexivity.
+    - reflexivity.
+    - exact Hgd.
+    - apply describe_pos; assumption.
+    - exact Hspec.
+    - exact Hg.
+    - exact Hne. }
   destruct HA as (st1 & HA & HC1 & HS1 & Hg1).
   destruct (stage_conv st1 su _ d u m g HC1 HS1 Hg1 Hl Hg) as (fl & st2 & q & HB & Hfl & Hq & HS2).
   exists fl, st2, q. split; [|split; [exact Hfl|split; [exact Hq|]]].
